@@ -2,12 +2,12 @@ package main
 
 import (
 	"fmt"
-	"strings"
 	"github.com/mmcloughlin/avo/attr"
 	"github.com/mmcloughlin/avo/ir"
 	"github.com/mmcloughlin/avo/operand"
 	"github.com/mmcloughlin/avo/reg"
 	"github.com/mmcloughlin/avo/x86"
+	"strings"
 )
 
 func addI(p *Prog, i *ir.Instruction, err error) {
